@@ -333,7 +333,12 @@ class Gen:
             self.funs.append({"n": name, "ps": ps, "pt": pt, "rt": INT, "b": body, "line": 0})
             self.fun_sigs[name] = (pt, INT)
         self.in_fun = None
-        main = self.stmts([], self.size, 0, False, None, None)
+        main = self.flat(self.stmts([], self.size, 0, False, None, None))
+        if self.features.get("session_safe") and main and main[-1]["k"] == "for":
+            # a session `run` whose last top-level expression is a `for` loop
+            # stops at the loop entry (eval-up-to special case); keep such
+            # programs out of session-based checks that are not about that
+            main.append(self.node("show", e=self.node("int", v=0)))
         prog = {"id": pid, "funs": self.funs, "main": main, "uses_enum": False}
         self.fix_lists(prog)
         for f in prog["funs"]:
@@ -531,8 +536,8 @@ def render(prog):
     return w.text()
 
 
-def generate(seed, pid, size=12, err_rate=0.25):
-    g = Gen(seed, size=size, err_rate=err_rate)
+def generate(seed, pid, size=12, err_rate=0.25, features=None):
+    g = Gen(seed, size=size, err_rate=err_rate, features=features)
     prog = g.program(pid)
     src = render(prog)
     return prog, src
